@@ -21,7 +21,7 @@ G_PROPS = {
                 opts={"objective_bias": "plateau"}),
     "C05": dict(oracles=["c05"], families=FAMILIES, modes=MODES, n_quick=6000, n_thorough=60000, opts={}),
     "C06": dict(oracles=["c06"], families=FAMILIES, modes=MODES, n_quick=7000, n_thorough=70000,
-                opts={"cycles_bias_one": True, "extreme_p": 0.3}),
+                opts={"cycles_bias_one": True, "extreme_p": 0.0, "extreme_every": 3}),
     "C10": dict(oracles=["c10"], families=FAMILIES, modes=MODES, n_quick=6000, n_thorough=60000,
                 opts={"pop_scales": (1, 1.5, 2, 3), "any_pop_p": 0.5}),
     "C15": dict(oracles=["c15", "c15_trend"], families=FAMILIES, modes=MODES, n_quick=6000, n_thorough=60000,
@@ -53,6 +53,7 @@ def plan(pid, tier, seed, n_override=None):
     n = n_override or (spec["n_quick"] if tier == "quick" else spec["n_thorough"])
     jobs = []
     floor = (n // len(cells)) * len(cells) if n >= len(cells) else n
+    rank = {}
     for i in range(n):
         if i < floor:
             cell = cells[i % len(cells)]
@@ -60,7 +61,10 @@ def plan(pid, tier, seed, n_override=None):
             cell = cells[r.randrange(len(cells))]
             if spec["opts"].get("pool_heavy_bias") and r.random() < 0.5:
                 cell = (r.choice(POOL_IN_CYCLE), cell[1], cell[2])
-        jobs.append({"i": i, "seed": H(seed, pid, tier, i), "cell": cell, "pid": pid, "tier": tier})
+        rank[cell[0]] = rank.get(cell[0], 0) + 1
+        # rank of the job among the jobs of its optimizer: stratifies the boundary-parameter candidates
+        jobs.append({"i": i, "seed": H(seed, pid, tier, i), "cell": cell, "pid": pid, "tier": tier,
+                     "opt_rank": rank[cell[0]] - 1})
     if pid == "C06":
         # second clause of C06: invalid calls are rejected up front
         k = max(len(invalid_calls.CASES), n // 12)
@@ -92,6 +96,10 @@ def make_desc(job):
         o["pop_scales"] = (1, 1, 1.5)
         o["any_pop_p"] = 0.1
         o["dim_max"] = 3
+    if o.get("extreme_every") and job.get("opt_rank") is not None and job["opt_rank"] % o["extreme_every"] == 0:
+        # every k-th job of an optimizer takes the next boundary-parameter candidate in turn (full coverage of the
+        # finite candidate set instead of random picks)
+        o["extreme_index"] = job["opt_rank"] // o["extreme_every"] + H(job["pid"], job["tier"], opt) % 97
     desc = scenario.gen_scenario(job["seed"], opt, fam, mode, engine_g.make_config, tier=job["tier"], opts=o)
     if o.get("history_utils") and desc.get("history"):
         desc["history_utils"] = True
@@ -142,5 +150,6 @@ def summarize(job, desc, rec, vs, wall):
         "completion_perms": [s["completion_perm"] for s in (rec.pool_sections or [])[:4]],
         "pool_sections": len(rec.pool_sections or []), "greedy_sections": len(rec.greedy or []),
         "ok_result": rec.result is not None,
+        "perturbed": bool(desc.get("perturbed")), "has_history": bool(desc.get("history")),
     }
     return out
